@@ -11,6 +11,8 @@ def run(chk, tier):
     g = K.run(tier)
     O.health(chk, g)
     O.c04(chk, g)
+    from .. import unit_contracts as U
+    U.oracle(chk, U.run(tier))
     extra(chk, g, tier)
     chk.note("grid", {"cells": g["ncells"], "abstract_paths": sum(c["npaths"] for c in g["res"].values()),
                       "deduplicated_states": sum(c.get("ndedup", 0) for c in g["res"].values()),
@@ -21,7 +23,7 @@ def run(chk, tier):
     chk.trusted_base = ["clang 14 front end", "LLVM sroa/mem2reg", "LLVM ConstantRange/KnownBits", "src/xai*.{cc,h}", "digest contracts in vlib/crypt_grid.py", "vlib/crypt_oracle.py"]
     chk.assumptions += ["phrase and setting are NUL-terminated strings; reads of these two strings carry no obligation (over-reads of caller strings are NOT decided)",
                         "the setting passed check_badsalt_chars (C05 R-FILTER-SPEC / R-FILTER-DOM establish that summary); the digest primitives obey their contracts (read (ptr,len), write result and context of their declared size)",
-                        "crypt paths of yescrypt ($y$) and gost-yescrypt ($gy$) are NOT covered: %s" % K.UNCOVERED,
+                        "the crypt path of gost-yescrypt ($gy$) is NOT covered: %s; yescrypt's decode64/decode64_uint32 are replaced by contracts that rule U-CONTRACT verifies against their bodies" % K.UNCOVERED,
                         "uninitialised reads of scratch and signed-overflow UB inside digest rounds are NOT decided"]
 
 
